@@ -27,16 +27,16 @@ const (
 // Result is the verdict of the oracle on one case, produced inside a worker
 // (or by the driver when the worker died).
 type Result struct {
-	ID         int              `json:"id"`
-	Status     string           `json:"status"`
-	Key        string           `json:"key,omitempty"` // finding key for a violation
-	Msg        string           `json:"msg,omitempty"`
-	Detail     json.RawMessage  `json:"detail,omitempty"`
-	Nontrivial bool             `json:"nontrivial,omitempty"`
-	Sig        string           `json:"sig,omitempty"` // distinctness signature
-	Counters   map[string]int64 `json:"counters,omitempty"`
+	ID         int                 `json:"id"`
+	Status     string              `json:"status"`
+	Key        string              `json:"key,omitempty"` // finding key for a violation
+	Msg        string              `json:"msg,omitempty"`
+	Detail     json.RawMessage     `json:"detail,omitempty"`
+	Nontrivial bool                `json:"nontrivial,omitempty"`
+	Sig        string              `json:"sig,omitempty"` // distinctness signature
+	Counters   map[string]int64    `json:"counters,omitempty"`
 	Sets       map[string][]string `json:"sets,omitempty"` // named sets of observed things (merged as unions)
-	Crash      bool             `json:"crash,omitempty"`
+	Crash      bool                `json:"crash,omitempty"`
 	// ExitAfter asks the worker to exit after reporting this result (its
 	// process state is no longer trustworthy, e.g. a pipeline is still spinning).
 	ExitAfter bool `json:"exit_after,omitempty"`
@@ -79,8 +79,8 @@ type Property struct {
 	// PeerWaitFrames: top frames under which a goroutine in state "select" is waiting for a peer
 	// inside the same process (loopback gRPC streams); used by the deadlock certificate only.
 	PeerWaitFrames []string
-	Env         func(c Case) []string
-	Gen         func(g *GenCtx) []Case
+	Env            func(c Case) []string
+	Gen            func(g *GenCtx) []Case
 	// Exec runs in a worker child process.
 	Exec func(w *Worker, c Case) Result
 	// Sample renders a case for the evidence file (default: the raw data).
